@@ -278,11 +278,26 @@ func c09History(c *Ctx, cs Case, prop string) {
 				}
 				err := db.Append(guidFromWire(unhx(f[1])), guidFromWire(unhx(f[2])), unhx(f[3]))
 				class = errClass(err)
+			case "AS":
+				// the same append through the other entry point, SignatureDatabase.AppendSignature
+				if blk, _ := pem.Decode(unhx(f[3])); prop == "C09" && blk != nil && f[1] == hx(tX509) {
+					otherForm = cloneDb(db)
+					otherClass = errClass(otherForm.AppendSignature(guidFromWire(unhx(f[1])), &signature.SignatureData{Owner: guidFromWire(unhx(f[2])), Data: blk.Bytes}))
+				}
+				err := db.AppendSignature(guidFromWire(unhx(f[1])), &signature.SignatureData{Owner: guidFromWire(unhx(f[2])), Data: unhx(f[3])})
+				class = errClass(err)
 			case "R":
 				err := db.Remove(guidFromWire(unhx(f[1])), guidFromWire(unhx(f[2])), unhx(f[3]))
 				class = errClass(err)
+			case "RS":
+				// the same removal through SignatureDatabase.RemoveSignature
+				err := db.RemoveSignature(guidFromWire(unhx(f[1])), &signature.SignatureData{Owner: guidFromWire(unhx(f[2])), Data: unhx(f[3])})
+				class = errClass(err)
 			case "Q":
 				answer = fmt.Sprint(db.BytesExists(guidFromWire(unhx(f[1])), guidFromWire(unhx(f[2])), unhx(f[3])))
+			case "QS":
+				// the same membership query through SignatureDatabase.SigDataExists
+				answer = fmt.Sprint(db.SigDataExists(guidFromWire(unhx(f[1])), &signature.SignatureData{Owner: guidFromWire(unhx(f[2])), Data: unhx(f[3])}))
 			case "X":
 				sl := signature.NewSignatureList(guidFromWire(unhx(f[1])))
 				for _, e := range splitSigs(f[2]) {
@@ -377,7 +392,7 @@ func c09History(c *Ctx, cs Case, prop string) {
 		switch {
 		case handed != nil:
 			held = append(held, &heldList{handed, f[1], len(*db) - 1})
-		case f[0] == "R" && class == "ok":
+		case (f[0] == "R" || f[0] == "RS") && class == "ok":
 			for j, l := range curLists { // the first list of this type and size that holds the entry: dropped if that was its only one
 				if l.typ == f[1] && l.size == fmt.Sprint(len(unhx(f[3]))+16) && len(l.sigs) > 0 && containsSig(l.sigs, [2]string{f[2], f[3]}) {
 					if len(l.sigs) == 1 {
@@ -400,7 +415,7 @@ func c09History(c *Ctx, cs Case, prop string) {
 		if f[0] == "HA" || f[0] == "HR" {
 			c.Class("history/held-list-" + f[0] + "-" + class) // distribution only
 		}
-		if (f[0] == "A" || f[0] == "R") && class == "ok" {
+		if (f[0] == "A" || f[0] == "R" || f[0] == "AS" || f[0] == "RS") && class == "ok" {
 			for _, l := range *db { // distribution only: edits that reached a list with a signature header
 				if l.HeaderSize > 0 && hx(wireGUID(l.SignatureType)) == f[1] {
 					c.Class("history/" + f[0] + "-ok-with-header-list-of-type")
@@ -451,7 +466,7 @@ func c09History(c *Ctx, cs Case, prop string) {
 				}
 			}
 			switch f[0] {
-			case "A":
+			case "A", "AS":
 				nd := f[3]
 				if f[1] == hx(tX509) {
 					if blk, _ := pem.Decode(unhx(f[3])); blk != nil {
@@ -482,7 +497,7 @@ func c09History(c *Ctx, cs Case, prop string) {
 							"PEM: "+class+" "+absStr(abs), "DER: "+otherClass+" "+absStr(absOf(ol)), "")
 					}
 				}
-			case "R":
+			case "R", "RS":
 				x := triple{f[1], f[2], f[3]}
 				if containsTriple(before, x) {
 					if class != "ok" || !insertedOne(abs, before, x) {
@@ -494,10 +509,10 @@ func c09History(c *Ctx, cs Case, prop string) {
 				} else if class != "err" || !sameTriples(before, abs) {
 					fail(i, "removing an absent entry must report an error and change nothing", class+" "+absStr(abs), "err "+absStr(before), "")
 				}
-			case "Q":
+			case "Q", "QS":
 				want := fmt.Sprint(containsTriple(before, triple{f[1], f[2], f[3]}))
 				if answer != want {
-					fail(i, "BytesExists disagrees with the entry collection", answer, want, "")
+					fail(i, map[string]string{"Q": "BytesExists", "QS": "SigDataExists"}[f[0]]+" disagrees with the entry collection", answer, want, "")
 				}
 			case "X":
 				all := true
@@ -550,7 +565,7 @@ func c09History(c *Ctx, cs Case, prop string) {
 						class+" "+absStr(abs), absStr(before)+" -/+ "+absStr([]triple{x}), "")
 				}
 			}
-			if f[0] != "R" {
+			if f[0] != "R" && f[0] != "RS" {
 				nEmpty = emptyLists(lists)
 			}
 		}
@@ -673,14 +688,21 @@ func genHistory(c *Ctx, u *c09Universe, maxLen int) Case {
 				}
 			}
 		}
+		// every third append / removal / query goes through the library's other entry point of the same
+		// operation (AppendSignature / RemoveSignature / SigDataExists); chosen by position, so that no
+		// random number is consumed and the histories are otherwise the ones generated before
+		via := ""
+		if (i+n)%3 == 0 {
+			via = "S"
+		}
 		switch k := c.Rng.Intn(24); {
 		case k < 8:
-			ops = append(ops, fmt.Sprintf("A,%s,%s,%s", hx(t), hx(o), hx(d)))
+			ops = append(ops, fmt.Sprintf("A%s,%s,%s,%s", via, hx(t), hx(o), hx(d)))
 			recent = append(recent, [3][]byte{t, o, d})
 		case k < 12:
-			ops = append(ops, fmt.Sprintf("R,%s,%s,%s", hx(t), hx(o), hx(d)))
+			ops = append(ops, fmt.Sprintf("R%s,%s,%s,%s", via, hx(t), hx(o), hx(d)))
 		case k < 16:
-			ops = append(ops, fmt.Sprintf("Q,%s,%s,%s", hx(t), hx(o), hx(d)))
+			ops = append(ops, fmt.Sprintf("Q%s,%s,%s,%s", via, hx(t), hx(o), hx(d)))
 		case k < 17:
 			m := 1 + c.Rng.Intn(2)
 			es := []string{}
@@ -789,7 +811,9 @@ func genHistory(c *Ctx, u *c09Universe, maxLen int) Case {
 			// implement can hold one, so such a list never comes out of ReadSignatureDatabase or
 			// NewSignatureList. Later operations are steered towards it: its own entry (duplicate
 			// append, remove) and new entries of the same type and size (database Append lands in it).
-			lt := [][]byte{tSHA1, tSHA384}[c.Rng.Intn(2)]
+			// ... and so can a list of a type the library does not know at all: AppendList / AppendDatabase
+			// take it as it is, and it is part of the entry collection like any other list
+			lt := [][]byte{tSHA1, tSHA384, tUnknown, tUnknown2}[c.Rng.Intn(4)]
 			dd := d
 			if der, isPem := u.pems[hx(dd)]; isPem {
 				dd = der
@@ -931,7 +955,7 @@ func c09Gen(c *Ctx) {
 
 func init() {
 	register("C09", &PropDef{
-		Rule:   "random histories of append / remove / BytesExists / Exists / AppendList / AppendList and AppendDatabase of a hand-built list with a 1..12-byte SignatureHeader (HeaderSize > 0; types SHA1 / SHA384, which only a caller can build; later appends and removes are steered into that list) / HELD-LIST operations (the caller keeps the pointer of every list it handed to AppendList / AppendDatabase and goes on editing it through the list-level AppendBytes / RemoveBytes - lists of two to four equal-sized entries are handed over for this - interleaved with the database-level operations; in the library the database's list is that very list, which the oracle, the model driver and the translated-code driver follow with a book of positions; an edit may change the database by that one entry only, a list the database dropped or that a decode replaced must not change it at all; a RemoveBytes that would leave a signature-less list inside the database is skipped: known finding F20) / encode-decode over types {X509, SHA256, SHA1 (valid, undecodable), unknown GUID} x 2 owners x {two hashes, 31- and 33-byte strings, cert A DER/PEM/PEM behind a text preamble, cert B (|B|=|A|), cert C DER/PEM (|C|!=|A|), 20 bytes, cert D whose DER length equals the length of the PEM text of cert A}, started from empty or from a decoded well-formed stream; operands are biased towards recently used triples. Every append of an X.509 certificate in PEM form is repeated with the DER form on a deep copy of the database: error class and entry collection have to be the same (PEM is stored as DER, whatever lists are present). Non-trivial: at least two operations of at least two kinds; distinct = distinct histories.",
+		Rule:   "random histories of append / remove / BytesExists / Exists (every third append, removal and membership query enters through the library's other name for the operation: SignatureDatabase.AppendSignature, RemoveSignature, SigDataExists - same oracle, and for PEM appends the same PEM-vs-DER comparison through that entry point; model driver ops AS / RS / QS, translated-code driver: the translated AppendSignature / RemoveSignature / SigDataExists) / AppendList / AppendList and AppendDatabase of a hand-built list with a 1..12-byte SignatureHeader (HeaderSize > 0; types SHA1 / SHA384, which only a caller can build, and two GUIDs that are no signature type at all - a list of a type unknown to the library can only enter this way, is part of the entry collection like any other, and must answer the queries and give up its entries to remove; later appends and removes are steered into that list) / HELD-LIST operations (the caller keeps the pointer of every list it handed to AppendList / AppendDatabase and goes on editing it through the list-level AppendBytes / RemoveBytes - lists of two to four equal-sized entries are handed over for this - interleaved with the database-level operations; in the library the database's list is that very list, which the oracle, the model driver and the translated-code driver follow with a book of positions; an edit may change the database by that one entry only, a list the database dropped or that a decode replaced must not change it at all; a RemoveBytes that would leave a signature-less list inside the database is skipped: known finding F20) / encode-decode over types {X509, SHA256, SHA1 (valid, undecodable), unknown GUID} x 2 owners x {two hashes, 31- and 33-byte strings, cert A DER/PEM/PEM behind a text preamble, cert B (|B|=|A|), cert C DER/PEM (|C|!=|A|), 20 bytes, cert D whose DER length equals the length of the PEM text of cert A}, started from empty or from a decoded well-formed stream; operands are biased towards recently used triples. Every append of an X.509 certificate in PEM form is repeated with the DER form on a deep copy of the database: error class and entry collection have to be the same (PEM is stored as DER, whatever lists are present). Non-trivial: at least two operations of at least two kinds; distinct = distinct histories.",
 		Assume: []string{"lists handed to AppendList / AppendDatabase are fresh, well-formed (ListSize = 28 + HeaderSize + n*SignatureSize, HeaderSize = len(SignatureHeader)) and duplicate-free (slice aliasing between two databases is outside the model; the caller's pointer to a handed-over list is inside it since the held-list operations); an empty one reproduces known finding F20", "a decoded start database has no duplicate entry inside a list"},
 		Eval:   c09Eval,
 		Gen:    c09Gen,
